@@ -35,6 +35,10 @@ struct Case {
     write_length: bool,
     /// B: leave StmF / StrF out instead of naming /Identity
     omit_identity: bool,
+    /// B, revision 6: salts [user validation, user key, owner validation, owner key] chosen so that
+    /// Algorithm 2.B ends in a particular way (see `boundary_salts`); None = salts from `pattern`
+    salts: Option<[[u8; 8]; 4]>,
+    salt_class: Option<String>,
 }
 
 impl Case {
@@ -44,6 +48,7 @@ impl Case {
             "user": self.user, "owner": self.owner, "perms": self.perms, "p_word": menu::p_word(self.perms), "id_len": self.id_len,
             "via_file": self.via_file, "table": self.table, "pattern": self.pattern, "write_length": self.write_length,
             "omit_identity": self.omit_identity,
+            "salts": self.salts.map(|s| s.iter().map(|x| hex(x)).collect::<Vec<_>>()), "salt_class": self.salt_class,
         })
     }
     fn from_json(v: &Value) -> Case {
@@ -61,6 +66,13 @@ impl Case {
             pattern: v["pattern"].as_u64().unwrap_or(0) as usize,
             write_length: v["write_length"].as_bool().unwrap_or(true),
             omit_identity: v["omit_identity"].as_bool().unwrap_or(false),
+            salts: v["salts"].as_array().filter(|a| a.len() == 4).map(|a| {
+                core::array::from_fn(|i| {
+                    let b = vharness::objjson::unhex(a[i].as_str().unwrap_or("0000000000000000"));
+                    core::array::from_fn(|j| b.get(j).copied().unwrap_or(0))
+                })
+            }),
+            salt_class: v["salt_class"].as_str().map(|s| s.to_string()),
         }
     }
 }
@@ -146,21 +158,41 @@ fn ref_content(k: Option<&Counters>, plain: &Document, container: &Document, enc
     cmp::diff_objects(&plain.objects, &objs)
 }
 
-fn run_a(c: &Case, k: Option<&Counters>) -> Result<Vec<Fail>, String> {
-    let r = c.cfg.revision();
+/// What lopdf produced in direction A: the encrypted document (in memory, or after lopdf's writer and
+/// loader) and the file key lopdf says it used. lopdf draws IVs, salts and paddings at random, so this
+/// artefact - not the case descriptor - is what a verdict is a deterministic function of.
+struct Artefact {
+    container: Document,
+    lopdf_file_key: Vec<u8>,
+}
+
+impl Artefact {
+    fn to_json(&self) -> Value {
+        json!({"encrypted_document": vharness::objjson::doc_to_json(&self.container), "lopdf_file_key": hex(&self.lopdf_file_key)})
+    }
+    fn from_json(v: &Value) -> Artefact {
+        Artefact {
+            container: vharness::objjson::doc_from_json(&v["encrypted_document"]),
+            lopdf_file_key: vharness::objjson::unhex(v["lopdf_file_key"].as_str().unwrap_or("")),
+        }
+    }
+}
+
+/// Direction A, lopdf's half: encrypt the plaintext document with the real library.
+fn a_produce(c: &Case) -> Result<Result<Artefact, Vec<Fail>>, String> {
     let id0 = menu::id_of_len(c.id_len);
     let plain = menu::build_doc(c.kind, &c.cfg, &id0, !c.via_file);
-    let up = rc::prep(r, &c.user)?;
-    let op = rc::prep(r, &c.owner)?;
-    let mut fails: Vec<Fail> = vec![];
+    let r = c.cfg.revision();
+    rc::prep(r, &c.user)?;
+    rc::prep(r, &c.owner)?;
     let state = match menu::build_state(&c.cfg, &plain, &c.user, &c.owner, c.perms) {
         Ok(s) => s,
-        Err(e) => return Ok(vec![Fail { item: "A:state".into(), detail: e, finding: None }]),
+        Err(e) => return Ok(Err(vec![Fail { item: "A:state".into(), detail: e, finding: None }])),
     };
     let mut enc_doc = plain.clone();
     match util::guard(|| enc_doc.encrypt(&state)) {
         Ok(Ok(())) => {}
-        other => return Ok(vec![Fail { item: "A:encrypt".into(), detail: format!("{:?}", other), finding: None }]),
+        other => return Ok(Err(vec![Fail { item: "A:encrypt".into(), detail: format!("{:?}", other), finding: None }])),
     }
     // the encrypted document as a container of objects: in memory, or written and parsed back
     let container = if c.via_file {
@@ -172,6 +204,25 @@ fn run_a(c: &Case, k: Option<&Counters>) -> Result<Vec<Fail>, String> {
     } else {
         enc_doc
     };
+    Ok(Ok(Artefact { container, lopdf_file_key: state.file_encryption_key().to_vec() }))
+}
+
+fn run_a(c: &Case, k: Option<&Counters>) -> Result<Vec<Fail>, String> {
+    match a_produce(c)? {
+        Ok(a) => a_judge(c, &a, k),
+        Err(f) => Ok(f),
+    }
+}
+
+/// Direction A, the reference's half: a deterministic function of the case descriptor and the artefact.
+fn a_judge(c: &Case, art: &Artefact, k: Option<&Counters>) -> Result<Vec<Fail>, String> {
+    let r = c.cfg.revision();
+    let id0 = menu::id_of_len(c.id_len);
+    let plain = menu::build_doc(c.kind, &c.cfg, &id0, !c.via_file);
+    let up = rc::prep(r, &c.user)?;
+    let op = rc::prep(r, &c.owner)?;
+    let mut fails: Vec<Fail> = vec![];
+    let container = &art.container;
     let enc_id = container.trailer.get(b"Encrypt").and_then(Object::as_reference).map_err(|e| format!("no /Encrypt reference: {}", e))?;
     let dict = match container.objects.get(&enc_id) {
         Some(Object::Dictionary(d)) => d,
@@ -213,7 +264,7 @@ fn run_a(c: &Case, k: Option<&Counters>) -> Result<Vec<Fail>, String> {
         let o_finding = if op.is_empty() && !up.is_empty() && rc::alg3_o(r, n, &op, &up, true) == enc.o { Some("empty-owner-password") } else { None };
         eq(&mut fails, "O", &enc.o, &o_ref, o_finding);
         let key_ref = rc::alg2_file_key(&enc, &id0, &up);
-        eq(&mut fails, "file key", state.file_encryption_key(), &key_ref, None);
+        eq(&mut fails, "file key", &art.lopdf_file_key, &key_ref, None);
         if r == 2 {
             eq(&mut fails, "U", &enc.u, &rc::alg4_u(&key_ref), None);
         } else {
@@ -258,7 +309,7 @@ fn run_a(c: &Case, k: Option<&Counters>) -> Result<Vec<Fail>, String> {
                 });
             }
         }
-        eq(&mut fails, "file key", state.file_encryption_key(), &menu::FILE_KEY, None);
+        eq(&mut fails, "file key", &art.lopdf_file_key, &menu::FILE_KEY, None);
     }
     // --- authenticate and open, as user and as owner
     let mut user_key: Option<Vec<u8>> = None;
@@ -302,7 +353,7 @@ fn run_a(c: &Case, k: Option<&Counters>) -> Result<Vec<Fail>, String> {
             }
             continue;
         }
-        let Some(problem) = ref_content(k, &plain, &container, &enc, enc_id, &key, Quirks::default()) else { continue };
+        let Some(problem) = ref_content(k, &plain, container, &enc, enc_id, &key, Quirks::default()) else { continue };
         let mut cands: Vec<(&'static str, Quirks)> = vec![];
         if c.kind == DocKind::StreamDict && c.cfg.strf != F::Identity {
             cands.push(("stream-dict-strings", Quirks { skip_stream_dict_strings: true, ..Default::default() }));
@@ -313,7 +364,7 @@ fn run_a(c: &Case, k: Option<&Counters>) -> Result<Vec<Fail>, String> {
         if uses_custom_identity(&c.cfg) {
             cands.push(("cfm-none", Quirks { cfm_identity_is_none: true, ..Default::default() }));
         }
-        let finding = cands.into_iter().find(|(_, q)| ref_content(None, &plain, &container, &enc, enc_id, &key, *q).is_none()).map(|x| x.0);
+        let finding = cands.into_iter().find(|(_, q)| ref_content(None, &plain, container, &enc, enc_id, &key, *q).is_none()).map(|x| x.0);
         fails.push(Fail { item: format!("A:content opened as {}", rname), detail: problem, finding });
     }
     Ok(fails)
@@ -403,7 +454,7 @@ fn build_b(c: &Case, v: BVariant) -> Result<BDoc, String> {
         strf: fname(c.cfg.strf),
         file_key,
         u_tail: p16,
-        salts: [s8(0), s8(0x10), s8(0x20), s8(0x30)],
+        salts: c.salts.unwrap_or([s8(0), s8(0x10), s8(0x20), s8(0x30)]),
         perms_tail: [p16[0], p16[1], p16[2], p16[3]],
     };
     let (mut dict, key) = rc::make(&mp, &id0, &up, &op);
@@ -629,6 +680,63 @@ fn pairs() -> Vec<(String, String, String)> {
     v
 }
 
+/// One quadruple of salts [user validation, user key, owner validation, owner key] for which all four
+/// hardened hashes (Algorithm 2.B) of a password pair end in the same way.
+struct SaltSet {
+    pair: String,
+    class: &'static str,
+    salts: [[u8; 8]; 4],
+    traces: [rc::HashTrace; 4],
+    searched: u64,
+}
+
+const SALT_CLASSES: [&str; 3] = ["boundary", "inside64", "over64"];
+const SALT_SEARCH_CAP: u64 = 4000;
+
+fn in_class(class: &str, t: &rc::HashTrace) -> bool {
+    match class {
+        "boundary" => t.on_boundary(),
+        "inside64" => t.well_inside_64(),
+        _ => t.over_64(),
+    }
+}
+
+/// Search the counting salts 1, 2, 3, ... (8 bytes, big-endian) for the first two salts of the class, for
+/// the user hashes, and then - U being fixed by them - for the owner hashes. No RNG.
+fn boundary_salts(pair: &str, user: &str, owner: &str) -> Vec<SaltSet> {
+    let (Ok(up), Ok(op)) = (rc::prep(6, user), rc::prep(6, owner)) else { return vec![] };
+    let mut out = vec![];
+    for class in SALT_CLASSES {
+        let find = |pw: &[u8], udata: &[u8]| -> Option<(Vec<([u8; 8], rc::HashTrace)>, u64)> {
+            let mut found = vec![];
+            for n in 1..=SALT_SEARCH_CAP {
+                let salt = n.to_be_bytes();
+                let (_, t) = rc::hash_r56_trace(6, pw, &salt, udata);
+                if in_class(class, &t) {
+                    found.push((salt, t));
+                    if found.len() == 2 {
+                        return Some((found, n));
+                    }
+                }
+            }
+            None
+        };
+        let Some((u, nu)) = find(&up, &[]) else { continue };
+        let mut uval = rc::hash_r56(6, &up, &u[0].0, &[]);
+        uval.extend_from_slice(&u[0].0);
+        uval.extend_from_slice(&u[1].0);
+        let Some((o, no)) = find(&op, &uval) else { continue };
+        out.push(SaltSet {
+            pair: pair.to_string(),
+            class,
+            salts: [u[0].0, u[1].0, o[0].0, o[1].0],
+            traces: [u[0].1, u[1].1, o[0].1, o[1].1],
+            searched: nu + no,
+        });
+    }
+    out
+}
+
 fn configs_a() -> Vec<Config> {
     let mut v = menu::configs();
     for (ver, other) in [(Ver::V4, F::Aes128), (Ver::V5, F::Aes256)] {
@@ -762,6 +870,8 @@ fn cases(run: &Run) -> Vec<Case> {
                                         pattern,
                                         write_length: *write_length,
                                         omit_identity: *omit_identity,
+                                        salts: None,
+                                        salt_class: None,
                                     };
                                     out.push(base.clone());
                                     // through lopdf's writer and loader: permissions = all only (thorough: the menu)
@@ -778,6 +888,40 @@ fn cases(run: &Run) -> Vec<Case> {
                         }
                     }
                 }
+            }
+        }
+    }
+    out
+}
+
+/// Direction B, revision 6, salts that steer Algorithm 2.B to its termination boundary.
+fn boundary_cases(sets: &[SaltSet]) -> Vec<Case> {
+    let mut out = vec![];
+    let pairs = pairs();
+    for cfg in configs_b().iter().filter(|c| c.revision() == 6) {
+        for set in sets {
+            let Some((_, user, owner)) = pairs.iter().find(|p| p.0 == set.pair) else { continue };
+            let base = Case {
+                dir: 'B',
+                cfg: cfg.clone(),
+                kind: DocKind::Page,
+                pair: set.pair.clone(),
+                user: user.clone(),
+                owner: owner.clone(),
+                perms: menu::all_flags(),
+                id_len: 16,
+                via_file: false,
+                table: true,
+                pattern: 0,
+                write_length: false,
+                omit_identity: false,
+                salts: Some(set.salts),
+                salt_class: Some(set.class.to_string()),
+            };
+            out.push(base.clone());
+            // the loader's own authenticate("") / decrypt("") runs the same hashes
+            if set.class == "boundary" && cfg.stm == F::Aes256 && cfg.strf == F::Aes256 {
+                out.push(Case { via_file: true, ..base });
             }
         }
     }
@@ -805,7 +949,8 @@ fn main() {
          custom filter, B also as omitted StmF/StrF and CFM /None, V4 with and without /Length) x 6 documents x 11 password pairs x permission words x \
          file identifier length {16,0,32} x (B) salt/IV/padding pattern {00,FF,counting} x {in memory, through lopdf's writer+loader}; enumerated in \
          a fixed order, distinct by construction; a case is non-trivial when a password is non-empty or the configuration is not V1; \
-         every failing case is executed three times and must fail the same items",
+         plus (B, revision 6) salt quadruples found by a deterministic search that make all four Algorithm 2.B hashes end on the boundary / at round 64 / after more than 64 rounds; \
+         a failing direction-B case is executed three times; a failing direction-A case keeps the document lopdf wrote and the reference judges that artefact three times",
     );
     run.assume("the reference handler (harness/src/refcrypt.rs) is an independent reading of ISO 32000-1 7.6 / ISO 32000-2 7.6; its primitives are checked against FIPS/RFC known answers, RC4 against RFC 6229, and it round-trips on itself; no third-party encrypted PDF was available offline to anchor it further");
     run.assume("conforming permission words only (bits 7-8 and 13-32 set, bits 1-2 clear); passwords for R <= 4 are restricted to PDFDocEncoding characters (what the standard leaves undefined is C05's nonlatin-password-collapse)");
@@ -813,7 +958,40 @@ fn main() {
     run.assume("CFM /None and the predefined /Identity filter mean 'no encryption' (as in every reader known to the author); V4 uses a 128-bit file key whether or not /Length is written (ISO 32000 Table 20: Length applies to V 2 and 3)");
     run.assume("lopdf's IVs, salts and paddings are random: ciphertext is never compared; O (R2-4), U (R2), U[0..16] (R3-4), P, V, R, Length, CFM, EncryptMetadata and the file key are compared for equality, R5/R6 U, O, UE, OE, Perms are validated");
     run.assume("documents that combine two catalogued deviations (strings in stream dictionaries together with a non-conforming Identity spelling) are left out so that every failing item is explained by exactly one finding");
-    let list = cases(&run);
+    let mut list = cases(&run);
+    // salts for the termination boundary of Algorithm 2.B, found by a deterministic search at start-up
+    let r6_pairs: Vec<(String, String, String)> = pairs();
+    let found: std::sync::Mutex<Vec<SaltSet>> = std::sync::Mutex::new(vec![]);
+    util::par_for(r6_pairs.len(), |i| {
+        let sets = boundary_salts(&r6_pairs[i].0, &r6_pairs[i].1, &r6_pairs[i].2);
+        found.lock().unwrap().extend(sets);
+    });
+    let mut sets = found.into_inner().unwrap();
+    sets.sort_by(|a, b| (a.pair.as_str(), a.class).cmp(&(b.pair.as_str(), b.class)));
+    let bcases = boundary_cases(&sets);
+    let missing = r6_pairs.len() * SALT_CLASSES.len() - sets.len();
+    if missing > 0 {
+        run.cap_hit(&format!("{} (password pair, class) combinations have no salt quadruple within the first {} counting salts", missing, SALT_SEARCH_CAP));
+    }
+    let per_class = |c: &str| sets.iter().filter(|s| s.class == c).count();
+    run.set(
+        "r6_boundary_salts",
+        json!({
+            "search": "counting 8-byte salts 1,2,3,... (big-endian); first two of each class for the user hashes, then (U fixed) for the owner hashes",
+            "password_pairs": r6_pairs.len(),
+            "quadruples_found": sets.len(),
+            "quadruples_exit_on_boundary_last_byte_eq_round_minus_32": per_class("boundary"),
+            "quadruples_exit_at_round_64_well_inside": per_class("inside64"),
+            "quadruples_more_than_64_rounds": per_class("over64"),
+            "hashes_steered_per_quadruple": 4,
+            "max_salts_searched_for_one_quadruple": sets.iter().map(|s| s.searched).max().unwrap_or(0),
+            "direction_B_cases_using_them": bcases.len(),
+            "example": sets.iter().find(|s| s.class == "boundary").map(|s| json!({
+                "pair": s.pair, "salts": s.salts.iter().map(|x| hex(x)).collect::<Vec<_>>(),
+                "rounds": s.traces.iter().map(|t| t.rounds).collect::<Vec<_>>(), "last_byte_of_E": s.traces.iter().map(|t| t.last_byte).collect::<Vec<_>>()})),
+        }),
+    );
+    list.extend(bcases);
     let k = Counters::default();
     let per_dir = [AtomicU64::new(0), AtomicU64::new(0)];
     let via_file = AtomicU64::new(0);
@@ -824,7 +1002,21 @@ fn main() {
         let c = &list[i];
         run.eval(1);
         let t0 = std::time::Instant::now();
-        let res = run_case(c, Some(&k));
+        // direction A: lopdf's half runs once (it is randomised); the verdict is a function of what it produced
+        let mut artefact: Option<Artefact> = None;
+        let res = if c.dir == 'A' {
+            match a_produce(c) {
+                Err(e) => Err(e),
+                Ok(Err(f)) => Ok(f),
+                Ok(Ok(a)) => {
+                    let r = a_judge(c, &a, Some(&k));
+                    artefact = Some(a);
+                    r
+                }
+            }
+        } else {
+            run_case(c, Some(&k))
+        };
         let dt0 = t0.elapsed().as_micros() as u64;
         match res {
             Err(e) => {
@@ -847,8 +1039,17 @@ fn main() {
                 }
                 if !fails.is_empty() {
                     let sig = signature(&fails);
+                    // replay discipline. Direction B is deterministic end to end: the whole case is re-run.
+                    // Direction A: the reference is re-run on the *captured* encrypted document; a different
+                    // outcome on the same artefact would be nondeterminism of the harness itself.
                     for _ in 0..2 {
-                        let again = run_case(c, None).map(|f| signature(&f));
+                        let again = match &artefact {
+                            Some(a) => a_judge(c, a, None),
+                            // lopdf refused to build the state or to encrypt: there is no artefact to re-judge
+                            None if c.dir == 'A' => Ok(fails.clone()),
+                            None => run_case(c, None),
+                        }
+                        .map(|f| signature(&f));
                         if again.as_ref().ok() != Some(&sig) {
                             eprintln!("MACHINERY: failing case does not replay identically: {} first {:?} replay {:?}", c.to_json(), sig, again);
                             std::process::exit(3);
@@ -867,6 +1068,9 @@ fn main() {
                         *classes.lock().unwrap().entry(key).or_insert(0) += 1;
                         let mut cj = c.to_json();
                         cj["item"] = json!(f.item);
+                        if let Some(a) = &artefact {
+                            cj["artefact"] = a.to_json();
+                        }
                         run.fail(f.finding, cj, &format!("[{}] {}", f.item, f.detail), expected_text(&f.item));
                     }
                 }
@@ -916,8 +1120,17 @@ fn main() {
 fn replay(run: &Run, path: &std::path::Path) -> ! {
     let case = vharness::run::read_replay(path);
     let c = Case::from_json(&case);
-    let a = run_case(&c, None);
-    let b = run_case(&c, None);
+    // direction A with a captured artefact: the reference judges exactly the document lopdf wrote then
+    let captured = if c.dir == 'A' && case["artefact"].is_object() { Some(Artefact::from_json(&case["artefact"])) } else { None };
+    let eval = |c: &Case| match &captured {
+        Some(a) => a_judge(c, a, None),
+        None => run_case(c, None),
+    };
+    if captured.is_some() {
+        println!("(judging the captured encrypted document; lopdf is not asked to encrypt again)");
+    }
+    let a = eval(&c);
+    let b = eval(&c);
     let (fa, fb) = match (a, b) {
         (Ok(x), Ok(y)) => (x, y),
         (x, y) => {
